@@ -10,6 +10,7 @@ package c01
 import (
 	"fmt"
 	"os"
+	"runtime/pprof"
 	"time"
 
 	"github.com/krotik/ecal/engine"
@@ -25,7 +26,7 @@ const ruleNote = "Every case builds a fresh engine.NewRuleIndex() or engine.NewP
 	"on the bare index: Match as a set equals the reference match set, and Match non-empty or reference non-empty => IsTriggering). " +
 	"Streams: ex-kind (bare index; ALL sets of <=2 rules quick / <=3 rules thorough over 24 kind-match options [12 patterns of depth<=2 over {a,b,*} + 12 duplicate/overlapping/disjoint pairs inside one rule] x statematch {none,{k:nil},{k:1}}, each against ALL 120 events = kinds of depth 0..3 over {a,b,c} x state {{},{k:1},{k:x}}; quick adds a seeded sample of the 3-rule sets); " +
 	"ex-state (bare index; ALL sets of <=3 rules on kind a over 26 statematch options = none + {k,l} x {absent,nil,1,\"x\",/^x/}, each against ALL 16 event states {k,l} x {absent,nil,1,\"x\"} + 2 other kinds); " +
-	"ex-cache (processor; ALL sets of <=2 rules over 6 kind-match options x statematch {none,{k:1}} x ALL histories of 1 or 2 events over names {e,f} x kinds {a.b,c.d,a.c,a} x state {{},{k:1}}); " +
+	"ex-cache (processor; ALL sets of <=2 rules over 6 kind-match options x statematch {none,{k:1}} x ALL histories of 1 or 2 events over names {e,f} x kinds {a.b,c.d,a.c} (thorough: + a) x state {{},{k:1}}); " +
 	"ex-scope (processor; ALL sets of 2 rules [3 rules: all in thorough, seeded sample in quick] over kindmatch {a.b,a.*,c.d} x scopematch {[],[s],[s.t],[s,u]} x suppression list = any subset of the other rules, x 6 cascade scopes {nil,{s+},{s+,s.t-},{''+,s-},{''-,s.t+},{}}; event a.b); " +
 	"rand-index / rand-proc (seeded: 1-12 rules with 1-3 patterns of depth 1-4 incl. wildcards at every level, duplicate patterns, empty segments; optional block of up to 50 state rules on one pattern; regexps; scope requirements; suppression lists; priorities; 1-30 events per history biased towards matching, names {e,f,g}; " +
 	"event kinds with '*' segments or one dotted segment; non-string state keys; workers 1..8; AddEventAndWait one by one or a burst of AddEvent + ThreadPool.WaitAll; optional stop/AddRule/start in mid-history; every fifth event lets one matching rule add a child event through a child monitor from inside its action, the child is judged with the scope of its cascade); " +
@@ -88,6 +89,12 @@ func procCaseRun(c *core.Ctx, stream string, idx int, cs *caseSpec, sampleClass 
 func Run(c *core.Ctx) {
 	c.Note("rule", ruleNote)
 	c.Note("exhaustive", "true")
+	if f := os.Getenv("VH_C01_PROF"); f != "" { // developer aid only
+		if fh, err := os.Create(f); err == nil {
+			pprof.StartCPUProfile(fh)
+			defer pprof.StopCPUProfile()
+		}
+	}
 	part := os.Getenv("VH_C01_PART")
 	if c.Replay() {
 		part = ""
@@ -194,7 +201,11 @@ func runExhaustiveIndex(c *core.Ctx) {
 }
 
 func runExhaustiveProc(c *core.Ctx) {
-	total := nCacheSets() * nCacheHists()
+	cev := cacheEventsFull
+	if c.Quick() {
+		cev = cacheEventsQuick
+	}
+	total := nCacheSets() * nCacheHists(cev)
 	for i := 0; i < total; i++ {
 		if !c.Take("ex-cache", i) {
 			continue
@@ -203,7 +214,7 @@ func runExhaustiveProc(c *core.Ctx) {
 		if i%9973 == 5000 {
 			sc = "ex-cache"
 		}
-		procCaseRun(c, "ex-cache", i, exCacheCase(i), sc)
+		procCaseRun(c, "ex-cache", i, exCacheCase(i, cev), sc)
 	}
 	total = nScopeCases(2)
 	for i := 0; i < total; i++ {
@@ -218,7 +229,7 @@ func runExhaustiveProc(c *core.Ctx) {
 	}
 	total = nScopeCases(3)
 	if c.Quick() {
-		ns := 8000
+		ns := 6000
 		for i := 0; i < ns; i++ {
 			if !c.Take("ex-scope3-sample", i) {
 				continue
